@@ -1,3 +1,199 @@
-import Robust.Stream.Resume
+import Robust.Stream.ResumeLemmas
+/-!
+C04 — resume exactly-once: a client that reconnects with `lastseen = (id, reply)` receives
+exactly the messages positioned after `(id, reply)`, in order, whatever the lag of the node it
+connects to and wherever earlier connections were cut.
+-/
 namespace Robust.Props.C04
+open Robust.Stream.Resume
+
+/-- the stream a client that has received everything up to (i,r) is still owed -/
+def owed (net : Net) (i r : Nat) : List M := (flat net).filter (after i r)
+
+/-- (1) one connection delivers a prefix of what is owed: in order, nothing skipped, nothing
+twice; whatever the node's lag. (`hf` is not used: a node that reports `found` for a batch that
+is not in `net` behaves like one that did not find it.) -/
+theorem C04_conn_prefix (net : Net) (h : WfNet net) (found : Bool) (i r : Nat) (hi : 0 < i)
+    (_hf : found = true → (getBatch net i).isSome) (k : Nat) :
+    ∃ n, conn net found i r k = (owed net i r).take n := by
+  obtain ⟨hinit, hinv⟩ := connInit_spec h found i r hi
+  obtain ⟨n, hn⟩ := connRun_prefix h k _ hinv
+  refine ⟨(connInit net found i r).2.length + n, ?_⟩
+  rw [conn_eq, owed, hinit, hn, List.take_length_add_append]
+
+/-- (2) with `net.length + 2` loop iterations everything owed is delivered: the state machine
+loses nothing and blocks only when nothing is owed. -/
+theorem C04_conn_complete (net : Net) (h : WfNet net) (found : Bool) (i r : Nat) (hi : 0 < i)
+    (_hf : found = true → (getBatch net i).isSome) :
+    conn net found i r (net.length + 2) = owed net i r := by
+  obtain ⟨hinit, hinv⟩ := connInit_spec h found i r hi
+  have hfuel := fuel_le_length net (connInit net found i r).1
+  rw [conn_eq, owed, hinit, connRun_complete h _ _ hinv (by omega)]
+
+/-- more iterations change nothing -/
+theorem C04_conn_complete_ge (net : Net) (h : WfNet net) (found : Bool) (i r : Nat) (hi : 0 < i)
+    (k : Nat) (hk : net.length + 2 ≤ k) : conn net found i r k = owed net i r := by
+  obtain ⟨hinit, hinv⟩ := connInit_spec h found i r hi
+  have hfuel := fuel_le_length net (connInit net found i r).1
+  rw [conn_eq, owed, hinit, connRun_complete h _ _ hinv (by omega)]
+
+/-- (3, exact form) a node that already stores the resume batch is exactly one loop iteration
+ahead of a node that does not: same output stream. -/
+theorem C04_lag_shift (net : Net) (h : WfNet net) (i r : Nat) (hi : 0 < i)
+    (hf : (getBatch net i).isSome) (k : Nat) :
+    conn net true i r k = conn net false i r (k + 1) :=
+  conn_lag_shift h i r hi hf k
+
+/-- (3) the lag of the node does not matter at all -/
+theorem C04_lag_irrelevant (net : Net) (h : WfNet net) (i r : Nat) (hi : 0 < i)
+    (hf : (getBatch net i).isSome) (k : Nat) :
+    conn net true i r (k + 1) = conn net false i r (k + 1) ∨
+      ∃ n m, conn net true i r k = (owed net i r).take n ∧
+        conn net false i r k = (owed net i r).take m := by
+  obtain ⟨n, hn⟩ := C04_conn_prefix net h true i r hi (fun _ => hf) k
+  obtain ⟨m, hm⟩ := C04_conn_prefix net h false i r hi (fun hc => nomatch hc) k
+  exact Or.inr ⟨n, m, hn, hm⟩
+
+/-- (3') both nodes deliver the same complete stream -/
+theorem C04_lag_irrelevant_complete (net : Net) (h : WfNet net) (i r : Nat) (hi : 0 < i) :
+    conn net true i r (net.length + 2) = conn net false i r (net.length + 2) := by
+  rw [C04_conn_complete_ge net h true i r hi _ (Nat.le_refl _),
+    C04_conn_complete_ge net h false i r hi _ (Nat.le_refl _)]
+
+/-! ## client level -/
+
+/-- position of the last received message, or the start position -/
+def lastPos (start : Nat × Nat) (received : List M) : Nat × Nat :=
+  match received.getLast? with
+  | some m => (m.id, m.reply)
+  | none => start
+
+/-- run the connections described by `cuts` (one (found, cut) pair per connection) -/
+def client (net : Net) (session : Nat) (start : Nat × Nat) : List (Bool × Nat) → List M → List M
+  | [], received => received
+  | (found, cut) :: rest, received =>
+    let p := lastPos start received
+    let node_has := found && (getBatch net p.1).isSome
+    let got := ((conn net node_has p.1 p.2 (net.length + 2)).take cut).filter (interesting session)
+    client net session start rest (received ++ got)
+
+/-- invariant of the reconnect loop: what the client holds, followed by what it is owed from its
+current resume position, is what it was owed at the start -/
+private def Good (net : Net) (session : Nat) (start : Nat × Nat) (received : List M) : Prop :=
+  0 < (lastPos start received).1 ∧
+    (owed net start.1 start.2).filter (interesting session)
+      = received ++ (owed net (lastPos start received).1 (lastPos start received).2).filter
+          (interesting session)
+
+private theorem good_step (net : Net) (h : WfNet net) (session : Nat) (start : Nat × Nat)
+    (received : List M) (hg : Good net session start received) (cut : Nat) :
+    Good net session start
+      (received ++ ((owed net (lastPos start received).1 (lastPos start received).2).take cut).filter
+        (interesting session)) := by
+  obtain ⟨hpos, heq⟩ := hg
+  unfold Good
+  generalize hp : lastPos start received = p at hpos heq ⊢
+  cases hlast : (((owed net p.1 p.2).take cut).filter (interesting session)).getLast? with
+  | none =>
+    have hnil := List.getLast?_eq_none_iff.1 hlast
+    rw [hnil, List.append_nil, hp]
+    exact ⟨hpos, heq⟩
+  | some m =>
+    have hlp : lastPos start
+        (received ++ ((owed net p.1 p.2).take cut).filter (interesting session)) = (m.id, m.reply) := by
+      simp only [lastPos, List.getLast?_append, hlast]
+      rfl
+    rw [hlp]
+    obtain ⟨ham, hres⟩ := resume_after_cut h p.1 p.2 (interesting session) cut m hlast
+    refine ⟨Nat.lt_of_lt_of_le hpos (after_id_le ham), ?_⟩
+    show _ = _ ++ ((flat net).filter (after m.id m.reply)).filter (interesting session)
+    rw [hres, heq, List.append_assoc, ← List.filter_append]
+    show _ = received ++ ((owed net p.1 p.2).take cut ++ (owed net p.1 p.2).drop cut).filter _
+    rw [List.take_append_drop]
+
+private theorem client_good (net : Net) (h : WfNet net) (session : Nat) (start : Nat × Nat)
+    (cuts : List (Bool × Nat)) :
+    ∀ received, Good net session start received →
+      ∃ n, client net session start cuts received
+        = ((owed net start.1 start.2).filter (interesting session)).take n := by
+  induction cuts with
+  | nil =>
+    intro received hg
+    refine ⟨received.length, ?_⟩
+    rw [hg.2, List.take_left']
+    · rfl
+    · rfl
+  | cons c rest ih =>
+    intro received hg
+    obtain ⟨found, cut⟩ := c
+    simp only [client]
+    rw [C04_conn_complete net h _ _ _ hg.1 (by
+      intro hc
+      simp only [Bool.and_eq_true] at hc
+      exact hc.2)]
+    exact ih _ (good_step net h session start received hg cut)
+
+/-- (4) over any number of connections, each resuming at the last received message, served by a
+node of arbitrary lag and cut after an arbitrary number of messages, the client has received a
+prefix of what it is owed (filtered to its session): in order, none missing, none twice. -/
+theorem C04_client_exactly_once (net : Net) (h : WfNet net) (session : Nat) (start : Nat × Nat)
+    (hs : 0 < start.1) (cuts : List (Bool × Nat)) :
+    ∃ n, client net session start cuts []
+      = ((owed net start.1 start.2).filter (interesting session)).take n :=
+  client_good net h session start cuts [] ⟨hs, by simp [lastPos]⟩
+
+/-- (4') progress: a connection that is not cut (cut ≥ everything owed) completes the client's stream -/
+theorem C04_client_complete (net : Net) (h : WfNet net) (session : Nat) (start : Nat × Nat)
+    (hs : 0 < start.1) (found : Bool) :
+    client net session start [(found, (flat net).length)] []
+      = (owed net start.1 start.2).filter (interesting session) := by
+  simp only [client, lastPos, List.getLast?_nil, List.nil_append]
+  rw [C04_conn_complete net h _ _ _ hs (by
+    intro hc
+    simp only [Bool.and_eq_true] at hc
+    exact hc.2)]
+  rw [List.take_of_length_le]
+  exact List.length_filter_le _ _
+
+/-! ## non-vacuity -/
+
+private def m (i r : Nat) (rc : List Nat) : M := ⟨i, r, rc⟩
+
+/-- three batches: ids 2, 5, 6 -/
+private def net3 : Net :=
+  [[m 2 1 [1], m 2 2 [2], m 2 3 [1]], [m 5 1 [2]], [m 6 1 [1], m 6 2 [1, 2]]]
+
+private theorem net3_wf : WfNet net3 := by
+  refine ⟨?_, by decide⟩
+  intro b hb
+  simp only [net3, List.mem_cons, List.not_mem_nil, or_false] at hb
+  rcases hb with rfl | rfl | rfl <;> refine ⟨by decide, ?_⟩ <;> intro j hj <;>
+    simp only [List.length_cons, List.length_nil] at hj
+  · have : j = 0 ∨ j = 1 ∨ j = 2 := by omega
+    rcases this with rfl | rfl | rfl <;> exact ⟨rfl, rfl⟩
+  · have : j = 0 := by omega
+    subst this; exact ⟨rfl, rfl⟩
+  · have : j = 0 ∨ j = 1 := by omega
+    rcases this with rfl | rfl <;> exact ⟨rfl, rfl⟩
+
+/-- resuming inside batch 2 after reply 1, on a lagging node and on an up-to-date node -/
+example : conn net3 false 2 1 5 = [m 2 2 [2], m 2 3 [1], m 5 1 [2], m 6 1 [1], m 6 2 [1, 2]] := by
+  decide
+example : conn net3 true 2 1 5 = owed net3 2 1 := by decide
+example : conn net3 true 2 1 1 = [m 2 2 [2], m 2 3 [1], m 5 1 [2]] := by decide
+example : conn net3 false 2 1 1 = [m 2 2 [2], m 2 3 [1]] := by decide
+/-- resume at an id that is not a batch id (between 2 and 5) -/
+example : conn net3 false 3 7 5 = [m 5 1 [2], m 6 1 [1], m 6 2 [1, 2]] := by decide
+/-- client of session 1: cut inside batch 2, then cut after batch 5, then uncut -/
+example : client net3 1 (1, 0) [(true, 2), (false, 2), (true, 9)] []
+    = [m 2 1 [1], m 2 3 [1], m 6 1 [1], m 6 2 [1, 2]] := by decide
+example : ∃ n, client net3 1 (1, 0) [(true, 2), (false, 2), (true, 9)] []
+    = ((owed net3 1 0).filter (interesting 1)).take n :=
+  C04_client_exactly_once net3 net3_wf 1 (1, 0) (by decide) _
+
+/-- `hi : 0 < i` is necessary: resuming at id 0 on a node that has not found batch 0 skips the
+rest of batch 0 -/
+private def net0 : Net := [[m 0 1 [1], m 0 2 [1]]]
+example : conn net0 false 0 1 3 = [] ∧ owed net0 0 1 = [m 0 2 [1]] := by decide
+
 end Robust.Props.C04
